@@ -50,25 +50,23 @@ def count_matrix(s1, s2, mt):
     return N
 
 
-def det_exact(M):
-    """determinant of a square matrix of Fractions, fraction-exact Gaussian elimination"""
-    A = [[Fr(x) for x in row] for row in M]
+def det_int(M):
+    """determinant of a square integer matrix, fraction-free (Bareiss) elimination: exact, integers only"""
+    A = [list(row) for row in M]
     n = len(A)
-    d = Fr(1)
-    for c in range(n):
+    sign, prev = 1, 1
+    for c in range(n - 1):
         piv = next((r for r in range(c, n) if A[r][c] != 0), None)
         if piv is None:
-            return Fr(0)
+            return 0
         if piv != c:
             A[c], A[piv] = A[piv], A[c]
-            d = -d
-        d *= A[c][c]
+            sign = -sign
         for r in range(c + 1, n):
-            if A[r][c] != 0:
-                f = A[r][c] / A[c][c]
-                for k in range(c, n):
-                    A[r][k] -= f * A[c][k]
-    return d
+            for k in range(c + 1, n):
+                A[r][k] = (A[r][k] * A[c][c] - A[r][c] * A[c][k]) // prev
+        prev = A[c][c]
+    return sign * A[n - 1][n - 1]
 
 
 def _ln(x):
@@ -76,14 +74,14 @@ def _ln(x):
     return math.log(x.numerator) - math.log(x.denominator)
 
 
-def _logdet_family(N, n, kind):
-    """(value or None) of paralinear / logdet / logdet_notk on count matrix N (entries may be Fractions)"""
-    r = len(N)
-    tot = sum(sum(row) for row in N)
-    J = [[Fr(x) / tot for x in row] for row in N]
-    fx = [sum(row) for row in J]
-    fy = [sum(J[i][j] for i in range(r)) for j in range(r)]
-    dJ = det_exact(J)
+def _logdet_family(N2, kind):
+    """value (or None when undefined) of paralinear / logdet / logdet_notk; N2 = 2 x the count matrix, integers (so that a
+    padded 0.5 is the integer 1).  J = N2 / sum(N2), det J = det(N2) / sum(N2)^r."""
+    r = len(N2)
+    tot = sum(sum(row) for row in N2)
+    fx = [Fr(sum(row), tot) for row in N2]
+    fy = [Fr(sum(N2[i][j] for i in range(r)), tot) for j in range(r)]
+    dJ = Fr(det_int(N2), tot ** r)
     if dJ <= 0:
         return None
     if kind == "logdet_notk":
@@ -108,9 +106,9 @@ def estimator_spec(calc, s1, s2, mt):
     r = len(N)
     n = sum(sum(row) for row in N)
     D = n - sum(N[i][i] for i in range(r))
-    out = {"total": n, "diffs": D, "exact": None, "alt": None, "zero_diag": False, "why": ""}
+    out = {"total": n, "diffs": D, "exact": None, "alt": None, "zero_diag": False, "why": "", "code": ""}
     if n == 0:
-        out["why"] = "no column with two canonical states"
+        out["why"], out["code"] = "no column with two canonical states", "no-columns"
         return out
     p = Fr(D, n)
     if calc == "pdist":
@@ -121,7 +119,7 @@ def estimator_spec(calc, s1, s2, mt):
         if p < Fr(3, 4):
             out["exact"] = -0.75 * _ln(1 - Fr(4, 3) * p) if p else 0.0
         else:
-            out["why"] = f"saturated p={p}"
+            out["why"], out["code"] = f"saturated p={p}", ("p=3/4" if p == Fr(3, 4) else "p>3/4")
     elif calc == "tn93":
         if r != 4:
             raise ValueError("tn93 needs 4 states")
@@ -132,7 +130,7 @@ def estimator_spec(calc, s1, s2, mt):
         P2 = Fr(N[C][T] + N[T][C], n)
         Q = p - P1 - P2
         if pi[A] * pi[G] == 0 or pi[C] * pi[T] == 0:
-            out["why"] = "a base is absent from both sequences (0/0 in the formula)"
+            out["why"], out["code"] = "a base is absent from both sequences (0/0 in the formula)", "absent-base"
         else:
             k1 = 2 * pi[A] * pi[G] / piR
             k2 = 2 * pi[C] * pi[T] / piY
@@ -143,15 +141,19 @@ def estimator_spec(calc, s1, s2, mt):
             if a1 > 0 and a2 > 0 and a3 > 0:
                 out["exact"] = -float(k1) * _ln(a1) - float(k2) * _ln(a2) - float(k3) * _ln(a3)
             else:
-                out["why"] = "a logarithm argument is <= 0"
+                z = min(a1, a2, a3) == 0
+                out["why"] = f"logarithm arguments {a1}, {a2}, {a3}"
+                out["code"] = "log-argument-exactly-0" if z else "log-argument-negative"
     elif calc in ("paralinear", "logdet", "logdet_notk"):
-        out["exact"] = _logdet_family(N, n, calc)
+        N2 = [[2 * x for x in row] for row in N]
+        out["exact"] = _logdet_family(N2, calc)
         if out["exact"] is None:
-            out["why"] = "det J <= 0"
+            dz = det_int(N2) == 0
+            out["why"], out["code"] = ("det J = 0", "det-zero") if dz else ("det J < 0", "det-negative")
         out["zero_diag"] = any(N[i][i] == 0 for i in range(r))
         if out["zero_diag"]:
-            Np = [[(Fr(1, 2) if (i == j and N[i][j] == 0) else Fr(N[i][j])) for j in range(r)] for i in range(r)]
-            out["alt"] = _logdet_family(Np, n, calc)
+            Np = [[(1 if (i == j and N[i][j] == 0) else 2 * N[i][j]) for j in range(r)] for i in range(r)]
+            out["alt"] = _logdet_family(Np, calc)
     else:
         raise ValueError(calc)
     return out
